@@ -1,6 +1,8 @@
 """C11 - a failed mock-repository operation changes nothing."""
 import ast
 
+from ..stores import store_kind
+
 from ..model import AnalysisError, walk_no_nested, dotted, norm
 from ..cfg import CFG
 from ..escape import EscapeAnalysis
@@ -73,11 +75,14 @@ BATCH = [(MOCK, 'FakedWBEMConnection', n) for n in (
 WRITE_ATTRS = ('create', 'update', 'delete')
 
 
-def is_write_call(c):
+def is_write_call(c, func=None):
     if not isinstance(c, ast.Call) or not isinstance(c.func, ast.Attribute):
         return False
     recv = norm(c.func.value)
-    if c.func.attr in WRITE_ATTRS and recv.endswith('_store'):
+    if c.func.attr in WRITE_ATTRS and (
+            recv.endswith('_store') or
+            (func is not None and
+             store_kind(c.func.value, func) is not None)):
         return True
     if c.func.attr in ('add_namespace', 'remove_namespace') and \
             recv.endswith('cimrepository'):
@@ -123,7 +128,7 @@ def run(repo, rep, tier):
         w = False
         for n in walk_no_nested(f.node):
             if isinstance(n, ast.Call):
-                if is_write_call(n):
+                if is_write_call(n, f):
                     w = True
                 elif depth < 3:
                     d = dotted(n.func) or ''
@@ -198,7 +203,7 @@ def run(repo, rep, tier):
             return True
         for c in ast.walk(st):
             if isinstance(c, ast.Call):
-                if is_write_call(c):
+                if is_write_call(c, f):
                     return True
                 d = dotted(c.func) or ''
                 if d.startswith('self.') and d.count('.') == 1 and \
